@@ -99,6 +99,23 @@ def best_run(data, b, off, cursor, issued_end):
     return best
 
 
+def fresh_short(data, seg, iv):
+    """a run of 3 bytes between attributed runs cannot be placed reliably, but it can be REFUTED: a correct generator took it from positions it
+    had not returned before - contiguous ones, or (straddling the end of the buffered batch and the start of the next) a first part and a
+    second part - so the window must hold the 3 bytes, or at least one 2-byte part of them, at positions not yet issued (a chance match
+    elsewhere only helps the implementation; shorter runs are not judged).  False = no such occurrence."""
+    if len(seg) != 3:
+        return True
+    def unissued(part):
+        p = data.find(part)
+        while p != -1:
+            if overlap(iv, p, p + len(part)) <= 0:
+                return True
+            p = data.find(part, p + 1)
+        return False
+    return unissued(seg) or unissued(seg[:2]) or unissued(seg[1:])
+
+
 def overlap(iv, a, e):
     return max((min(e, y) - max(a, x) for (x, y) in iv), default=0)
 
@@ -194,6 +211,8 @@ def check_history(req, impl, windows, base_pad):
                         break
                     p2, n2 = best_run(w.data, b, off + d, None, 0)
                     if n2 >= 4:
+                        if not fresh_short(w.data, b[off:off + d], iv):
+                            return ("op %s: bytes %d..%d of its output occur in the keystream only at positions that were already returned (or nowhere): not fresh keystream " % (op, off, off + d)) + where % s
                         off += d
                         cursor = None
                         skipped = True
@@ -203,10 +222,14 @@ def check_history(req, impl, windows, base_pad):
             if n < min(4, rem):
                 if rem >= 4:
                     return ("op %s: bytes %d.. of its output are not in the generator's keystream (longest match %d bytes) " % (op, off, n)) + where % s
+                if rem == 3 and not fresh_short(w.data, b[off:], iv):
+                    return ("op %s: the last %d bytes of its output occur in the keystream only at positions that were already returned (or nowhere): not fresh keystream " % (op, rem)) + where % s
                 cursor = None      # a run of 1..3 bytes cannot be attributed reliably
                 break
             if n >= 4 and overlap(iv, pos, pos + n) >= 4:
                 return ("op %s re-issued keystream positions: byte offset %d (+%d) overlaps %d bytes already returned " % (op, pos, n, overlap(iv, pos, pos + n))) + where % s
+            if n == 3 and n == rem and op not in ("u32", "u64") and not fresh_short(w.data, b[off:off + n], iv):
+                return ("op %s: the last %d bytes of its output occur in the keystream only at positions that were already returned: not fresh keystream " % (op, n)) + where % s
             if n >= 4:
                 iv.append((pos, pos + n))
             cursor = pos + n
